@@ -136,6 +136,9 @@ def build(S, spec):
                           tuple(a['path'])] = (rank, adj)
             alloc.set_traits(a.get('traits', 0))
         W.allocs[(a.get('label', '_default'),) + tuple(a['path'])] = alloc
+        W.alloc_cfg_traits = getattr(W, 'alloc_cfg_traits', {})
+        W.alloc_cfg_traits[(a.get('label', '_default'),) + tuple(a['path'])] \
+            = a.get('traits', 0) if a['path'] else 0
     # instances
     W.apps = []
     W.demand = []
@@ -174,6 +177,8 @@ def build(S, spec):
             continue
         key = tuple(ap.get('alloc', ('_default',)))
         cell.add_app(W.allocs[key], W.apps[i])
+        W.app_alloc = getattr(W, 'app_alloc', {})
+        W.app_alloc[i] = key
     for g, count in spec.get('igroups', {}).items():
         cell.configure_identity_group(g, count)
     # pre-placement through Server.restore (what Loader.restore_placement does)
@@ -301,6 +306,14 @@ def apply_event(W, ev):
     elif kind == 'move_app':      # to another allocation (Loader.load_app)
         i, key = ev[1], tuple(ev[2])
         cell.add_app(W.allocs[key], W.apps[i])
+        W.app_alloc[i] = key
+    elif kind == 'alloc_traits':  # Loader.load_allocations: set_traits, then
+        #                           every instance is loaded again (add_app)
+        key, t = tuple(ev[1]), ev[2]
+        W.allocs[key].set_traits(t)
+        W.alloc_cfg_traits[key] = t
+        for i, app in live_apps(W):
+            cell.add_app(W.allocs[W.app_alloc[i]], app)
     elif kind == 'server_state':
         j, st = ev[1], ev[2]
         since = S.int('ev_since%d' % getattr(W, 'nev', 0), NOW - TSPAN, NOW)
@@ -558,6 +571,15 @@ def pre_info(W):
 
 # ---------------------------------------------------------------- C03
 
+def required_traits(W, name):
+    """Traits the instance must find on its server, from the configuration
+    the harness holds (own traits | traits of the allocation it is in)."""
+    idx = int(name[-10:])
+    own = W.spec['apps'][idx].get('traits', 0)
+    key = getattr(W, 'app_alloc', {}).get(idx)
+    return own | getattr(W, 'alloc_cfg_traits', {}).get(key, 0)
+
+
 def c03_oracle(W, placement, pre_state, tag=''):
     S, sch = W.S, W.sch
     mem = W.cell.members()
@@ -576,9 +598,10 @@ def c03_oracle(W, placement, pre_state, tag=''):
             S.check('C03:assigned_outside_partition' + tag,
                     app.allocation.label in srv.labels,
                     {'app': name, 'server': sa})
+        need = required_traits(W, name)
         S.check('C03:assigned_without_required_traits' + tag,
-                (srv.traits.self_traits & app.traits) == app.traits,
-                {'app': name, 'server': sa, 'traits': app.traits})
+                (srv.traits.self_traits & need) == need,
+                {'app': name, 'server': sa, 'traits': need})
         # the lease the instance asked for (from the spec: the code under
         # test must not be trusted to have left app.lease alone)
         idx = int(name[-10:])
@@ -603,9 +626,10 @@ def c03_oracle(W, placement, pre_state, tag=''):
                     app.allocation.label in srv.labels,
                     {'app': name, 'server': app.server,
                      'label': app.allocation.label})
+        need = required_traits(W, name)
         S.check('C03:placed_instance_lacks_traits' + tag,
-                (srv.traits.self_traits & app.traits) == app.traits,
-                {'app': name, 'server': app.server})
+                (srv.traits.self_traits & need) == need,
+                {'app': name, 'server': app.server, 'traits': need})
 
 
 def server_states(W):
